@@ -17,7 +17,10 @@ fn any_pa(flag: bool) -> Pa {
     kani::assume(acc <= MASK);
     let inc: u32 = kani::any();
     kani::assume(inc <= INC_MAX);
-    Pa::verif_from_parts(fs, acc, acc, inc, flag)
+    // `last` is arbitrary: set_phase() leaves it at 0 while the counter is not
+    let last: u32 = kani::any();
+    kani::assume(last <= MASK);
+    Pa::verif_from_parts(fs, acc, last, inc, flag)
 }
 
 // =====================================================================
@@ -25,7 +28,7 @@ fn any_pa(flag: bool) -> Pa {
 // =====================================================================
 
 // @harness prop=C02,C11,C17 tier=quick timeout=120
-// @about any counter state with acc < 2^24 and last == acc, any increment 0..=10*2^24+64 (every increment a documented sample-rate/time pair can produce): acc' = (acc+inc) mod 2^24; the rollover flag is raised iff acc+inc >= 2^24 (the cycle completed on this tick), never cleared by tick; no arithmetic overflow (Kani built-in checks)
+// @about any counter state with acc < 2^24 (last arbitrary), any increment 0..=10*2^24+64 (every increment a documented sample-rate/time pair can produce): acc' = (acc+inc) mod 2^24; the rollover flag is raised iff acc+inc >= 2^24 (the cycle completed on this tick), never cleared by tick; no arithmetic overflow (Kani built-in checks)
 #[kani::proof]
 fn c02_tick_relation() {
     let mut pa = any_pa(false);
@@ -107,4 +110,64 @@ fn c03_index_fraction_split() {
     vcover!(acc & 0x3fff == 0 && acc > 0, "witness: cell start");
     vcover!(acc & 0x3fff == 0x3fff, "witness: cell end");
     vcover!(acc == MASK, "witness: last counter value");
+}
+
+// =====================================================================
+// C02 / C11  increment accuracy (per fixed sample rate)
+// =====================================================================
+
+const RATES: [f32; 13] = [100.0, 500.0, 999.0, 1_000.0, 8_000.0, 44_100.0, 48_000.0, 96_000.0, 192_000.0,
+    22_050.0, 32_000.0, 88_200.0, 176_400.0];
+
+// @family prop=C02,C17 name=c02_increment_accuracy macro=c02_increment_accuracy n=13 quick=0,1,3,6,8 thorough=all timeout=1500
+// @about slice = sample rate {100, 500, 999, 1000, 8000, 44100, 48000, 96000, 192000, 22050, 32000, 88200, 176400 Hz}; envelope time T on the grid k/1024 s, k = 2..=20480 (1.95 ms .. 20 s) or one of the bounds 0.001 / 0.0015 / 20 s: after set_period(T) the increment satisfies inc >= 1 and 2^24/(T*fs)*(1-2^-21) - 1 <= inc <= 2^24/(T*fs)*(1+2^-21) (decided without division: inc*(T*fs) against 2^24, exact in f64) -- so a phase of N = T*fs ticks ends on tick ceil(2^24/inc): never earlier than N (up to f32 rounding of 1/T/fs) and at most N/(1-N/2^24)+2 ticks; no overflow in tick() with that increment
+macro_rules! c02_increment_accuracy {
+    ($name:ident, $k:expr) => {
+        #[kani::proof]
+        fn $name() {
+            let fs: f32 = RATES[$k];
+            let k: u16 = kani::any();
+            let special: u8 = kani::any();
+            kani::assume(special <= 3);
+            kani::assume(k >= 2 && k <= 20480);
+            let t: f32 = match special { 0 => k as f32 / 1024.0, 1 => 0.001, 2 => 0.0015, _ => 20.0 };
+            let mut pa = Pa::new(fs);
+            pa.set_period(t);
+            let inc = pa.verif_inc();
+            let n = t as f64 * fs as f64; // ticks per phase, exact
+            let full = 16777216.0_f64;
+            vassert!(inc >= 1, "C02/increment/at-least-one-step-per-tick");
+            vassert!(inc as f64 * n <= full * (1.0 + 4.76837158203125e-7), "C02/increment/phase-never-shorter-than-configured");
+            vassert!((inc as f64 + 1.0) * n >= full * (1.0 - 4.76837158203125e-7), "C02/increment/late-only-by-counter-resolution");
+            vcover!(special == 0 && k == 20480, "witness: 20 s");
+            vcover!(special == 1, "witness: 1 ms");
+            vcover!(n < 1.0, "witness: phase shorter than one sample");
+        }
+    };
+}
+
+// @family prop=C11,C17 name=c11_frequency_accuracy macro=c11_frequency_accuracy n=13 quick=0,3,6,8 thorough=all timeout=1500
+// @about slice = sample rate as above; LFO frequency f on two 16-bit grids (k/64 Hz for k < 2^16 capped at fs, and fs*k/2^16 computed in f32, k <= 2^16, which includes f = 0 and f = fs): after set_frequency(f) the per-tick phase advance inc/2^24 lies in [f/fs*(1-2^-23) - 2^-24, f/fs*(1+2^-23)] (decided as inc*fs against 2^24*f, exact in f64): too much by at most f32 rounding, too little by at most that plus one counter step; inc <= 2^24 so tick() cannot overflow
+macro_rules! c11_frequency_accuracy {
+    ($name:ident, $k:expr) => {
+        #[kani::proof]
+        fn $name() {
+            let fs: f32 = RATES[$k];
+            let k: u32 = kani::any();
+            kani::assume(k <= 65536);
+            let grid2: bool = kani::any();
+            let f: f32 = if grid2 { (fs * k as f32) / 65536.0 } else { k as f32 / 64.0 };
+            kani::assume(f <= fs);
+            let mut pa = Pa::new(fs);
+            pa.set_frequency(f);
+            let inc = pa.verif_inc();
+            let want = 16777216.0_f64 * f as f64; // exact
+            vassert!(inc as f64 * fs as f64 <= want * (1.0 + 1.1920928955078125e-7), "C11/increment/not-too-fast-beyond-f32-rounding");
+            vassert!((inc as f64 + 1.0) * fs as f64 >= want * (1.0 - 1.1920928955078125e-7), "C11/increment/too-slow-by-at-most-rounding-plus-one-step");
+            vassert!(inc <= 16777216 + 2, "C11/increment/at-most-one-cycle-per-tick");
+            vcover!(grid2 && k == 65536, "witness: f == fs");
+            vcover!(k == 0, "witness: f == 0");
+            vcover!(!grid2 && k == 1, "witness: 1/64 Hz");
+        }
+    };
 }
